@@ -88,6 +88,27 @@ for batch in batches:
                 "violation": {"property": prop, "class": "not-isolated" if prop == "C18" else "state-diverged", "detail": detail.strip()},
                 "replay_cmd": f"cd {src} && MIRIFLAGS='-Zmiri-seed={m.group(1) if m else 0} -Zmiri-preemption-rate={rate}' cargo +nightly miri run --offline " + " ".join(extra) + " -- " + " ".join(args)}
         break
+# native stress (C18): the Miri crate run natively, real threads at full speed, two feature sets. Not a controlled
+# interleaving - a monitor on seeded programs for what sits below every yield point and outside Miri's reach
+# (wrappers around SIMD FFI); its replay repeats the run.
+if prop == "C18" and not viol:
+    rounds = "200" if tier == "thorough" else "60"
+    for name, extra, tdir in [("std", [], "target/native"), ("no_std", ["--no-default-features"], "target/native_nostd")]:
+        for k in range(3 if tier == "thorough" else 1):
+            args = [str(vseed * 17 + k), "8", "stress", rounds]
+            env = dict(os.environ, CARGO_NET_OFFLINE="true")
+            p = subprocess.run(["cargo", "run", "--release", "--offline", "--target-dir", tdir] + extra + ["--"] + args, cwd=work, env=env, capture_output=True, text=True)
+            out = p.stdout + p.stderr
+            if p.returncode == 0 and "ok stress" in out:
+                total += 1; samples.append({"native_stress": name, "program_args": args, "ok": True}); continue
+            if "could not compile" in out:
+                sys.stderr.write(out[-3000:]); print("HARNESS ERROR: the native stress build failed"); sys.exit(2)
+            detail = next((l for l in out.splitlines() if "NOT-ISOLATED" in l), "native stress run failed")
+            viol = {"property": prop, "engine": "miri", "miri_seed": "native-" + name, "preemption_rate": "native", "program_args": args,
+                    "violation": {"property": prop, "class": "not-isolated", "detail": detail.strip()},
+                    "replay_cmd": f"cd {src} && for i in $(seq 50); do cargo run --release --offline --target-dir {tdir} " + " ".join(extra) + " -- " + " ".join(args) + " 2>&1 | grep NOT-ISOLATED && break; done"}
+            break
+        if viol: break
 wall = time.time() - t0
 exitc = 0
 if viol:
